@@ -68,6 +68,8 @@ class Layout:
             kinds = ['memword', 'memword', 'hwword', 'reg', 'array', 'memory', 'creg', 'range']
         if self.style == 'words':
             kinds = ['memword', 'hwword', 'array', 'regfile']
+        if r.random() < 0.35:
+            pos = r.choice([6, 8, 12, 16])                # the low addresses of the map stay unmapped
         while pos < limit - 20 and n < 9:
             pos += r.choice([0, 0, 0, 1, 2, 3])           # gaps are unmapped
             k = r.choice(kinds)
@@ -115,7 +117,12 @@ class Layout:
                     # a memory / address range inside the register file (its addresses are relative to the file's global offset)
                     members = [m for m in members if m < 4] or [0]
                     inner_mem = (4, r.choice([2, 3, 4]), r.choice(['memory', 'range']))
-                self.items.append(Item(k, name, pos * 4, wc, members=members, nested=nested, inner_mem=inner_mem))
+                inner_arr = None
+                if wc == 8 and nested is None and inner_mem is None and r.random() < 0.6:
+                    # an array of words inside the register file (element addresses are relative to the file, like every member)
+                    members = [m for m in members if m < 4] or [0]
+                    inner_arr = (4, *r.choice([(2, 1), (3, 1), (4, 1), (2, 2)]))
+                self.items.append(Item(k, name, pos * 4, wc, members=members, nested=nested, inner_mem=inner_mem, inner_arr=inner_arr))
                 pos += wc
             elif k == 'memory':
                 words = r.choice([2, 3, 4, 5, 6, 8])
@@ -331,6 +338,9 @@ class Layout:
                 L.append(f"class Sub_{n}(reg32.RegFile, word_count={it.words}):")
                 if getattr(it, 'inner_mem', None):
                     L.append(f"    mem: MemIn_{n}[0x{it.inner_mem[0] * 4:x}]")
+                if getattr(it, 'inner_arr', None):
+                    aoff, acnt, astep = it.inner_arr
+                    L.append(f"    arr: reg32.Array[reg32.MemWord, 0x{aoff * 4:x}:0x{(aoff + acnt * astep) * 4:x}:{astep * 4}]")
                 for m in it.members:
                     L.append(f"    m{m}: reg32.MemWord[0x{m * 4:x}]")
                 if it.nested:
@@ -413,6 +423,10 @@ class Layout:
                     moff, mwords, mkind = it.inner_mem
                     for k in range(mwords):
                         m[it.off + (moff + k) * 4] = (it, ('mem', k))
+                if getattr(it, 'inner_arr', None):
+                    aoff, acnt, astep = it.inner_arr
+                    for k in range(acnt):
+                        m[it.off + (aoff + k * astep) * 4] = (it, aoff + k * astep)
             elif it.kind == 'memory':
                 for i in range(it.words):
                     m[it.off + i * 4] = (it, i)
